@@ -6878,6 +6878,89 @@ and copy_ctx fuel c =
                   ctx_with_arrs arrs' (ctx_with_vars vars' k))) (fun _ ->
                 ret id))))))
 
+(** val all2M : ('a1 -> 'a2 -> bool m) -> 'a1 list -> 'a2 list -> bool m **)
+
+let rec all2M f l1 l2 =
+  match l1 with
+  | [] -> ret true
+  | a :: r1 ->
+    (match l2 with
+     | [] -> ret true
+     | b :: r2 ->
+       bind (f a b) (fun ok -> if ok then all2M f r1 r2 else ret false))
+
+(** val rec_pair_layout : (n -> n -> bool m) -> n -> n -> bool m **)
+
+let rec_pair_layout sl e1 e2 =
+  bind (get_cell e1) (fun c1 ->
+    bind (get_cell e2) (fun c2 ->
+      match c1.c_val with
+      | PRec (_, x) ->
+        (match c2.c_val with
+         | PRec (_, y) -> sl x y
+         | _ ->
+           crash
+             ('g'::('e'::('t'::('<'::('C'::('o'::('m'::('p'::('o'::('s'::('i'::('t'::('e'::('>'::(' '::('o'::('n'::(' '::('o'::('t'::('h'::('e'::('r'::(' '::('p'::('a'::('y'::('l'::('o'::('a'::('d'::[]))))))))))))))))))))))))))))))))
+      | _ ->
+        crash
+          ('g'::('e'::('t'::('<'::('C'::('o'::('m'::('p'::('o'::('s'::('i'::('t'::('e'::('>'::(' '::('o'::('n'::(' '::('o'::('t'::('h'::('e'::('r'::(' '::('p'::('a'::('y'::('l'::('o'::('a'::('d'::[])))))))))))))))))))))))))))))))))
+
+(** val arr_layout : (n -> n -> bool m) -> arr -> arr -> bool m **)
+
+let arr_layout sl a1 a2 =
+  if negb (dt_eq a1.a_type a2.a_type)
+  then ret false
+  else if negb (dt_is a1.a_type KRec)
+       then ret true
+       else all2M (rec_pair_layout sl) a1.a_elems a2.a_elems
+
+(** val same_layout : nat -> n -> n -> bool m **)
+
+let rec same_layout fuel dc sc =
+  match fuel with
+  | O -> failm FFuel
+  | S f ->
+    bind (get_ctx dc) (fun dx ->
+      bind (get_ctx sc) (fun sx ->
+        if (||) (negb (Nat.eqb (length dx.x_vars) (length sx.x_vars)))
+             (negb (Nat.eqb (length dx.x_arrs) (length sx.x_arrs)))
+        then ret false
+        else bind
+               (all2M (fun dv sv ->
+                 bind (get_cell (snd dv)) (fun d ->
+                   bind (get_cell (snd sv)) (fun s ->
+                     if negb (dt_eq d.c_type s.c_type)
+                     then ret false
+                     else if dt_is d.c_type KRec
+                          then (match d.c_val with
+                                | PRec (_, x) ->
+                                  (match s.c_val with
+                                   | PRec (_, y) -> same_layout f x y
+                                   | _ ->
+                                     crash
+                                       ('g'::('e'::('t'::('<'::('C'::('o'::('m'::('p'::('o'::('s'::('i'::('t'::('e'::('>'::(' '::('o'::('n'::(' '::('o'::('t'::('h'::('e'::('r'::(' '::('p'::('a'::('y'::('l'::('o'::('a'::('d'::[]))))))))))))))))))))))))))))))))
+                                | _ ->
+                                  crash
+                                    ('g'::('e'::('t'::('<'::('C'::('o'::('m'::('p'::('o'::('s'::('i'::('t'::('e'::('>'::(' '::('o'::('n'::(' '::('o'::('t'::('h'::('e'::('r'::(' '::('p'::('a'::('y'::('l'::('o'::('a'::('d'::[]))))))))))))))))))))))))))))))))
+                          else ret true))) dx.x_vars sx.x_vars) (fun ok ->
+               if negb ok
+               then ret false
+               else all2M (fun da sa ->
+                      bind (get_arr (snd da)) (fun a1 ->
+                        bind (get_arr (snd sa)) (fun a2 ->
+                          arr_layout (same_layout f) a1 a2))) dx.x_arrs
+                      sx.x_arrs)))
+
+(** val composite_assign :
+    (n -> n -> unit m) -> nat -> str -> n -> str -> n -> unit m **)
+
+let composite_assign cvd fuel tn0 dc tn sc =
+  if str_eqb tn0 tn
+  then bind (same_layout fuel dc sc) (fun ok ->
+         if ok then cvd dc sc else rt_error err_token dc)
+  else crash
+         ('u'::('s'::('e'::('r'::('T'::('y'::('p'::('e'::('.'::('c'::('p'::('p'::(' '::('C'::('o'::('m'::('p'::('o'::('s'::('i'::('t'::('e'::(':'::(':'::('o'::('p'::('e'::('r'::('a'::('t'::('o'::('r'::('='::(' '::('a'::('b'::('o'::('r'::('t'::[])))))))))))))))))))))))))))))))))))))))
+
 (** val set_copy : nat -> n -> payload -> unit m **)
 
 let rec set_copy fuel dst src =
@@ -6888,11 +6971,7 @@ let rec set_copy fuel dst src =
       match d.c_val with
       | PRec (tn, dc) ->
         (match src with
-         | PRec (tn', sc) ->
-           if str_eqb tn tn'
-           then copy_var_data f dc sc
-           else crash
-                  ('u'::('s'::('e'::('r'::('T'::('y'::('p'::('e'::('.'::('c'::('p'::('p'::(' '::('C'::('o'::('m'::('p'::('o'::('s'::('i'::('t'::('e'::(':'::(':'::('o'::('p'::('e'::('r'::('a'::('t'::('o'::('r'::('='::(' '::('a'::('b'::('o'::('r'::('t'::[])))))))))))))))))))))))))))))))))))))))
+         | PRec (tn', sc) -> composite_assign (copy_var_data f) f tn dc tn' sc
          | _ ->
            if dk_eqb d.c_type.dk (payload_kind src)
            then bind (copy_val f src) (fun v' -> set_cell_val dst v')
@@ -7087,10 +7166,7 @@ let assign_val fuel dst v =
           | PRec (tn, sc) ->
             (match d.c_val with
              | PRec (tn0, dc) ->
-               if str_eqb tn0 tn
-               then copy_var_data fuel dc sc
-               else crash
-                      ('u'::('s'::('e'::('r'::('T'::('y'::('p'::('e'::('.'::('c'::('p'::('p'::(' '::('C'::('o'::('m'::('p'::('o'::('s'::('i'::('t'::('e'::(':'::(':'::('o'::('p'::('e'::('r'::('a'::('t'::('o'::('r'::('='::(' '::('a'::('b'::('o'::('r'::('t'::[])))))))))))))))))))))))))))))))))))))))
+               composite_assign (copy_var_data fuel) fuel tn0 dc tn sc
              | _ ->
                crash
                  ('c'::('e'::('l'::('l'::(' '::('p'::('a'::('y'::('l'::('o'::('a'::('d'::(' '::('d'::('i'::('s'::('a'::('g'::('r'::('e'::('e'::('s'::(' '::('w'::('i'::('t'::('h'::(' '::('i'::('t'::('s'::(' '::('t'::('y'::('p'::('e'::[])))))))))))))))))))))))))))))))))))))
@@ -8691,7 +8767,22 @@ let store_value t0 c id v =
     else bind (implicit_cast cl.c_type v) (fun v' ->
            if negb (dt_eq cl.c_type v'.r_type)
            then rt_error t0 c
-           else bind (assign_val hfuel id v') (fun _ -> ret res_none)))
+           else bind
+                  (match cl.c_val with
+                   | PRec (_, dc) ->
+                     (match v'.r_val with
+                      | Some p0 ->
+                        (match p0 with
+                         | PRec (_, sc) ->
+                           if dt_is cl.c_type KRec
+                           then same_layout hfuel dc sc
+                           else ret true
+                         | _ -> ret true)
+                      | None -> ret true)
+                   | _ -> ret true) (fun ok ->
+                  if negb ok
+                  then rt_error t0 c
+                  else bind (assign_val hfuel id v') (fun _ -> ret res_none))))
 
 (** val expect_holder_var : token -> n -> holder -> n m **)
 
@@ -8934,8 +9025,12 @@ let eval_body pedantic lim self n0 c =
                        then rt_error t0 c
                        else if negb (dims_eqb a1.a_dims a2.a_dims)
                             then rt_error t0 c
-                            else bind (copy_array_data hfuel did sid)
-                                   (fun _ -> ret res_none)))))
+                            else bind (arr_layout (same_layout hfuel) a1 a2)
+                                   (fun ok ->
+                                   if negb ok
+                                   then rt_error t0 c
+                                   else bind (copy_array_data hfuel did sid)
+                                          (fun _ -> ret res_none))))))
          | _ ->
            crash
              ('u'::('n'::('r'::('e'::('a'::('c'::('h'::('a'::('b'::('l'::('e'::(':'::(' '::('h'::('a'::('n'::('d'::('l'::('e'::('r'::(' '::('o'::('n'::('l'::('y'::(' '::('f'::('i'::('r'::('e'::('s'::(' '::('f'::('o'::('r'::(' '::('a'::('n'::(' '::('A'::('c'::('c'::('e'::('s'::('s'::('N'::('o'::('d'::('e'::[])))))))))))))))))))))))))))))))))))))))))))))))))))
@@ -9701,8 +9796,24 @@ let bind_args_body self t0 params args vals c fc =
                           | _ -> rt_error t0 c)
                     else bind (self.ev_new_var pn v'.r_type false fc)
                            (fun id ->
-                           bind (assign_val hfuel id v') (fun _ ->
-                             add_var fc pn id))) (fun _ ->
+                           bind (get_cell id) (fun ncl ->
+                             bind
+                               (match ncl.c_val with
+                                | PRec (_, dc) ->
+                                  (match v'.r_val with
+                                   | Some p2 ->
+                                     (match p2 with
+                                      | PRec (_, sc) ->
+                                        if dt_is ncl.c_type KRec
+                                        then same_layout hfuel dc sc
+                                        else ret true
+                                      | _ -> ret true)
+                                   | None -> ret true)
+                                | _ -> ret true) (fun ok ->
+                               if negb ok
+                               then rt_error t0 c
+                               else bind (assign_val hfuel id v') (fun _ ->
+                                      add_var fc pn id))))) (fun _ ->
                    self.ev_bind_args t0 pr ar vr c fc))))
 
 (** val call_procedure_body :
